@@ -241,7 +241,7 @@ def _gate(R1, R2, Rc, eps, conds, central, R4=None):
 
 
 def closed_form(fn, k, seed, ns, p0, multinom, eps, dseed, nboot, log=False, nested=None, full=None, adjusts=None, perm=None, pts=(10,),
-                pcont='list', dmask=0):
+                pcont='list', dmask=0, bcont='spectrum', acont='list'):
     """fn in FIM, GIM, LRT, Wald, score.  Calls dadi at eps and 2*eps, compares with the closed form."""
     import dadi
     from dadi import Godambe
@@ -263,6 +263,13 @@ def closed_form(fn, k, seed, ns, p0, multinom, eps, dseed, nboot, log=False, nes
     else:
         boots_call = list(boots)
     adj_call = None if not adjusts else ([adjusts[i] for i in perm] if perm else list(adjusts))
+    if adj_call is not None and acont == 'tuple':
+        adj_call = tuple(adj_call)
+    if bcont == 'array':
+        # bootstraps handed over as plain arrays (the functions wrap them in Spectrum themselves, masking the corners)
+        boots_call = [np.array(np.ma.getdata(b)) for b in boots_call]
+    elif bcont == 'tuple':
+        boots_call = tuple(boots_call)
     pts = list(pts)
 
     def P0():
